@@ -397,6 +397,7 @@ func runC07(c *core.Ctx) {
 		c07Missing(c, r, fns)
 	}
 	c.Floor("R07c", 3, "error return, missing-element exit, default node")
+	c07NoSharedBuffers(c)
 }
 
 // c07LenGuard: the declaration field whose len() test (against 0) decides, on the nearest dominating If, whether the
